@@ -25,12 +25,17 @@ type ins struct {
 type h struct {
 	pre     []ins
 	threads []ins
+	// batches: each is one more inserting thread that adds its keys IN ORDER through ONE
+	// arenaskl.Inserter (as memTable.apply does for a multi-key batch): the splice cached by one Add is
+	// reused by the next
+	batches [][]ins
+	berrs   [][]error
 	reader  string // "", "bwd", "fwd"
 	l       *arenaskl.Skiplist
 	errs    []error
 	done    []atomic.Bool // read by the reader while inserters run: goes through the scheduler shims
-	obs     []string // reader observation
-	sawDone []string // keys whose Add had returned when the reader started
+	obs     []string      // reader observation
+	sawDone []string      // keys whose Add had returned when the reader started
 }
 
 func ikey(k string, seq uint64) base.InternalKey {
@@ -47,6 +52,7 @@ func (s *h) Setup() {
 	}
 	s.errs = make([]error, len(s.threads))
 	s.done = make([]atomic.Bool, len(s.threads))
+	s.berrs = make([][]error, len(s.batches))
 }
 
 func (s *h) Threads() []func() {
@@ -58,6 +64,19 @@ func (s *h) Threads() []func() {
 			t.RandQueue = []uint64{uint64(arenaskl.VerifRndForHeight(s.threads[i].height)) << 32}
 			s.errs[i] = s.l.Add(ikey(s.threads[i].key, s.threads[i].seq), []byte("v"))
 			s.done[i].Store(true)
+		})
+	}
+	for bi := range s.batches {
+		bi := bi
+		fs = append(fs, func() {
+			t := vsched.Cur()
+			for _, k := range s.batches[bi] {
+				t.RandQueue = append(t.RandQueue, uint64(arenaskl.VerifRndForHeight(k.height))<<32)
+			}
+			var in arenaskl.Inserter
+			for _, k := range s.batches[bi] {
+				s.berrs[bi] = append(s.berrs[bi], in.Add(s.l, ikey(k.key, k.seq), []byte("v")))
+			}
 		})
 	}
 	if s.reader != "" {
@@ -115,6 +134,18 @@ func judge(hh vsched.Harness, x *vsched.Exec) (string, string, string) {
 		case arenaskl.ErrRecordExists:
 		default:
 			return "err", "add-error", fmt.Sprintf("Add(%s) returned %v", id, s.errs[i])
+		}
+	}
+	for bi, b := range s.batches {
+		for j, t := range b {
+			id := fmt.Sprintf("%s#%d", t.key, t.seq)
+			if j >= len(s.berrs[bi]) {
+				return "hang", "batch-insert-did-not-finish", id
+			}
+			if s.berrs[bi][j] != nil {
+				return "err", "add-error", fmt.Sprintf("Inserter.Add(%s) returned %v", id, s.berrs[bi][j])
+			}
+			want[id] = true
 		}
 	}
 	for _, t := range s.threads {
@@ -222,9 +253,20 @@ func TestCheck(t *testing.T) {
 			mk("dup-bb-c", pre, []ins{{"b", 2, 1}, {"b", 2, 2}, {"c", 3, 1}}, "bwd", 1, 2),
 			mk("same-user-key-seqs", pre, []ins{{"c", 5, 1}, {"c", 6, 2}, {"c", 7, 1}}, "fwd", 1, 2),
 			mk("empty-list-bc", nil, []ins{{"b", 2, 2}, {"c", 3, 3}}, "bwd", 2, 3),
+			// multi-key batches through one Inserter (cached splice), racing with a single Add of a
+			// NEWER version of a user key the batch also writes (sequence numbers are assigned in
+			// order, batches are applied concurrently)
+			mkb("inserter-batch-older-version", pre, []ins{{"c", 15, 1}}, [][]ins{{{"b", 11, 1}, {"c", 12, 1}}}, "fwd", 2, 3),
+			mkb("inserter-two-batches-same-keys", pre, nil, [][]ins{{{"b", 11, 1}, {"c", 12, 1}}, {{"b", 21, 1}, {"c", 22, 2}}}, "bwd", 1, 2),
+			mkb("inserter-batch-three-versions", nil, []ins{{"c", 15, 2}}, [][]ins{{{"c", 11, 1}, {"c", 12, 1}, {"d", 13, 1}}}, "fwd", 1, 2),
 		}
 		d1x.Run(t, c, sc)
 	})
+}
+
+func mkb(name string, pre, th []ins, batches [][]ins, reader string, qb, tb int) d1x.Scenario {
+	return d1x.Scenario{Name: name, QuickBound: qb, ThoroughBound: tb, Judge: judge,
+		New: func() vsched.Harness { return &h{pre: pre, threads: th, batches: batches, reader: reader} }}
 }
 
 func mkw(name string, pre, th []ins, reader string, qb, tb int, w float64) d1x.Scenario {
